@@ -43,6 +43,10 @@ void vnacal_free(vnacal_t *vcp)
 
 	    vnacal_new_free(vnp);
 	}
+	for (int ci = 0; ci < vcp->vc_calibration_allocation; ++ci) {
+	    _vnacal_calibration_free(vcp->vc_calibration_vector[ci]);
+	}
+	free((void *)vcp->vc_calibration_vector);
 	(void)vnaproperty_delete(&vcp->vc_properties, ".");
 	assert(vcp->vc_properties == NULL);
 	_vnacal_teardown_parameter_collection(vcp);
